@@ -368,6 +368,30 @@ class CertProperty:
             progs.append({'name': 'metaesc%d' % i, 'inputs': ['1.5', '1x5', 'a(b'],
                           'modes': [{'name': 'M', 'patterns': [{'p': '[0-9]+' + e + '[0-9]+', 't': 1}, {'p': '[0-9]+', 't': 2}, {'p': '[a-z]+', 't': 3},
                                                                {'p': 'q', 't': 4, 'la': {'pos': True, 'p': e}}], 'transitions': []}]})
+        # alternations that list an alternative twice among alternatives sharing prefixes (keyword lists written by
+        # hand or generated): duplicate branches give the subset construction identical NFA paths and the minimizer
+        # groups with parallel edges
+        words = ['if', 'in', 'int', 'is', 'i', 'for', 'fn', 'f', 'else', 'elif', 'e']
+        fixed = [['if', 'in', 'if', 'int'], ['a', 'ab', 'a', 'abc', 'ab'], ['for', 'fn', 'for', 'f', 'fn'], ['else', 'elif', 'else', 'e']]
+        ndup = 8 if tier == 'quick' else 80
+        for i in range(ndup):
+            ws = fixed[i] if i < len(fixed) else None
+            if ws is None:
+                ws = rng.sample(words, rng.randint(2, 4))
+                ws += [rng.choice(ws) for _ in range(rng.randint(1, 2))]
+                rng.shuffle(ws)
+            alt = '|'.join(ws)
+            shape = i % 4
+            if shape == 0:
+                pats = [{'p': alt, 't': 0}]
+            elif shape == 1:
+                pats = [{'p': '(%s)x' % alt, 't': 1}, {'p': '[a-z]', 't': 2}]
+            elif shape == 2:
+                pats = [{'p': '(?:%s)+' % alt, 't': 0}, {'p': '[a-z]+', 't': 1}]
+            else:
+                pats = [{'p': 'x', 't': 7, 'la': {'pos': True, 'p': alt}}, {'p': alt, 't': 3}, {'p': '[a-z]', 't': 8}]
+            progs.append({'name': 'dupalt%d' % i, 'modes': [{'name': 'M', 'patterns': pats, 'transitions': []}],
+                          'inputs': ['if in int ifx', 'xint forfn', 'elseelif ab abc']})
         # shared token types: several patterns of one mode with the SAME token type (legal; only the priority
         # among them is affected by known finding D8, the accepted languages per token type are not): chains of
         # different lengths over one class need several refinement rounds of the minimizer, and terminal_ids has
